@@ -31,6 +31,7 @@ type World struct {
 	repoFuncs []*ssa.Function
 	shapes  *shapeSet
 	shapeNotes []string
+	renameNotes []string
 }
 
 // scratchMod copies go.mod/go.sum of /repo into a scratch dir so that module
